@@ -30,6 +30,9 @@ func (g *gen) listeners(s setting) setting {
 	case 1:
 		s = append(s, kv{"http_address", vs("unix:///tmp/vc/http.sock")})
 	default:
+		if g.r.Chance(15) {
+			hport = 0 // an explicit port 0 is legal in the deprecated form (ephemeral port)
+		}
 		s = append(s, kv{"port", vi(hport)})
 		usesHost = true
 	}
